@@ -187,14 +187,16 @@ class Conv:
                 return ["MustReject", "keyword arguments"]
             if any(isinstance(a, ast.Starred) for a in e.args):
                 return ["MustReject", "starred argument"]
-            args = [self.expr(a) for a in e.args]
+            args = [self.expr(a) for a in e.args if not isinstance(a, (ast.GeneratorExp, ast.ListComp))]
             if isinstance(e.func, ast.Attribute) and e.func.attr == "copy" and not args:
                 return ["Copy", self.expr(e.func.value)]
             if isinstance(e.func, ast.Name):
                 f = e.func.id
                 if f == "array":
                     if len(e.args) == 1 and isinstance(e.args[0], (ast.GeneratorExp, ast.ListComp)):
-                        return ["MustReject", "comprehension"]
+                        # array comprehension over a literal range: the elements are the element expression with the
+                        # (comprehension-local) variable replaced by 0, 1, ... evaluated left to right
+                        return ["Array", [self.expr(x) for x in unroll_comprehension(e.args[0])]]
                     return ["Array", args]
                 if f in self.structs:
                     return ["Struct", f, self.structs[f], args]
@@ -204,6 +206,42 @@ class Conv:
                     return ["MustReject", f"{f} in expression position"]
             return ["Call", self.expr(e.func), args]
         return ["MustReject", type(e).__name__]
+
+
+class _Subst(ast.NodeTransformer):
+    def __init__(self, name, value):
+        self.name, self.value = name, value
+
+    def visit_Name(self, node):
+        if node.id == self.name:
+            if not isinstance(node.ctx, ast.Load):
+                raise Unrepresentable("comprehension variable rebound")
+            return ast.copy_location(ast.Constant(self.value), node)
+        return node
+
+    def _scope(self, node):
+        raise Unrepresentable("nested scope in comprehension element")
+
+    visit_Lambda = visit_GeneratorExp = visit_ListComp = visit_SetComp = visit_DictComp = _scope
+
+
+def unroll_comprehension(g) -> list:
+    """element expressions of `array(elt for v in range(<int literals>))`; other forms are not represented"""
+    import copy
+
+    if len(g.generators) != 1:
+        raise Unrepresentable("comprehension with several generators")
+    gen = g.generators[0]
+    if gen.ifs or gen.is_async or not isinstance(gen.target, ast.Name):
+        raise Unrepresentable("comprehension with conditions / pattern target")
+    it = gen.iter
+    if not (isinstance(it, ast.Call) and isinstance(it.func, ast.Name) and it.func.id == "range" and not it.keywords
+            and 1 <= len(it.args) <= 3 and all(isinstance(a, ast.Constant) and type(a.value) is int for a in it.args)):
+        raise Unrepresentable("comprehension over something else than a literal range")
+    ks = list(range(*[a.value for a in it.args]))
+    if len(ks) > 16:
+        raise Unrepresentable("comprehension too long")
+    return [_Subst(gen.target.id, k).visit(copy.deepcopy(g.elt)) for k in ks]
 
 
 def convert(src: str) -> dict:
